@@ -49,4 +49,15 @@ def check(tier):
                           {'replay_request': ['complex_ops', n], 'dev': dev, 'release': rel, 'what': what})
         else:
             rep.note_inconclusive('complex glue finding at n=%d (%s) does not show natively: errors %s' % (n, what, dev))
+    # plumbing validation: the real complex transforms on concrete vectors at every length (errors far below 1e-6)
+    for n in [1 << k for k in range(1, 11)]:
+        dev = replay.call1(['complex_ops', n])
+        try:
+            errs = [float(x) for x in dev.split(',')]
+        except ValueError:
+            errs = [float('inf')]
+        if max(errs) < 1e-6:
+            rep.replayed += 1
+        else:
+            rep.violation('complex-ops-native', 'complex transforms at n=%d: (round trip, product, merge(split), split(fft)) errors = %s' % (n, dev), {'replay_request': ['complex_ops', n], 'dev': dev})
     return rep.finish()
